@@ -16,8 +16,9 @@ struct Setup {
     oracle: LayoutOracle,
     numpad: bool,
     sugg: bool,
-    /// key that types the one-character prefix, and the prefix text
-    pre: (u16, u8, String),
+    /// keys that type a one-character prefix after which no rewrite rule applies with all helpers off
+    /// (a consonant, an independent vowel, an ASCII punctuation mark), and the prefix text
+    pres: Vec<(u16, u8, String)>,
 }
 
 fn setups(env: &Env, sugg: bool) -> Result<Vec<Setup>, String> {
@@ -36,15 +37,19 @@ fn setups(env: &Env, sugg: bool) -> Result<Vec<Setup>, String> {
             fresh_root(&root);
             let sess = Sess::new(spec, &root).map_err(|p| format!("context creation panicked at {}: {}", p.loc, p.msg))?;
             let oracle = LayoutOracle::load(lay)?;
-            let (pk, pm) = oracle.key_for_value("ক").ok_or("layout has no key for ক")?;
-            v.push(Setup { sess, oracle, numpad, sugg, pre: (pk, pm, "ক".to_string()) });
+            let mut pres = vec![];
+            for p in ["ক", "অ", "!"] {
+                let (pk, pm) = oracle.key_for_value(p).ok_or(format!("layout has no key for {p}"))?;
+                pres.push((pk, pm, p.to_string()));
+            }
+            v.push(Setup { sess, oracle, numpad, sugg, pres });
         }
     }
     Ok(v)
 }
 
-fn case_json(s: &Setup, with_pre: bool, code: u16, m: u8) -> Value {
-    json!({"cfg": s.sess.spec.to_json(), "after_one_char": with_pre, "code": code, "modifier": m,
+fn case_json(s: &Setup, with_pre: usize, code: u16, m: u8) -> Value {
+    json!({"cfg": s.sess.spec.to_json(), "after_one_char": if with_pre == 0 { Value::Null } else { json!(s.pres[with_pre - 1].2) }, "prefix_index": with_pre, "code": code, "modifier": m,
            "key": keydef(code).map(|k| k.name).unwrap_or("(not in riti.h)")})
 }
 
@@ -73,11 +78,12 @@ struct Tally {
     shift_ignored: u64,
 }
 
-fn judge(s: &Setup, with_pre: bool, code: u16, m: u8, out: &mut Out, t: &mut Tally) {
+fn judge(s: &Setup, with_pre: usize, code: u16, m: u8, out: &mut Out, t: &mut Tally) {
     t.events += 1;
     let r = guard(|| {
-        if with_pre {
-            let _ = s.sess.ctx.get_suggestion_for_key(s.pre.0, s.pre.1, 0);
+        if with_pre > 0 {
+            let p = &s.pres[with_pre - 1];
+            let _ = s.sess.ctx.get_suggestion_for_key(p.0, p.1, 0);
         }
         let sg = s.sess.ctx.get_suggestion_for_key(code, m, 0);
         let txt = shown(&sg, s.sugg);
@@ -85,7 +91,7 @@ fn judge(s: &Setup, with_pre: bool, code: u16, m: u8, out: &mut Out, t: &mut Tal
         s.sess.ctx.finish_input_session();
         (txt, ongoing)
     });
-    let prefix = if with_pre { s.pre.2.as_str() } else { "" };
+    let prefix = if with_pre > 0 { s.pres[with_pre - 1].2.as_str() } else { "" };
     let val = s.oracle.value(code, m, s.numpad);
     let expected = format!("{prefix}{}", val.unwrap_or(""));
     let kname = keydef(code).map(|k| k.name.to_string()).unwrap_or_else(|| "out-of-table".to_string());
@@ -149,8 +155,8 @@ impl Prop for C04 {
     }
     fn rule(&self) -> String {
         "complete enumeration: every u16 key code x modifier in {0,1,2,3,4,5,0x80,0xFE,0xFF} x numpad off/on x {Probhat.json, verif.json} \
-         x {idle, after one character}, suggestions off (pre-edit text compared with the layout JSON read independently), plus the 111 published \
-         codes x 9 modifiers with suggestions on (first candidate). distinct_nontrivial = distinct (layout, key, plane, assigned text) tuples that \
+         x {idle, after the consonant ক} (the 111 published codes also after the vowel অ and after '!'), suggestions off (pre-edit text compared with the layout JSON read independently), plus the 111 published \
+         codes x 9 modifiers with suggestions on (first candidate), plus the number-pad option switched off/on/off/on by update_engine under a live context for every number-pad key. distinct_nontrivial = distinct (layout, key, plane, assigned text) tuples that \
          emitted text and were compared."
             .into()
     }
@@ -158,7 +164,7 @@ impl Prop for C04 {
         vec![
             "the key-name table (keytab.rs) was transcribed from include/riti.h and is re-checked against the header at start-up".into(),
             "layout entry naming (Key_<name>_<Normal|AltGr>, Num<x>) follows the layout file format; every entry of each file is addressed by exactly one table row (self-check)".into(),
-            "all composition helpers off; prefix text is the single consonant ক, after which no rewrite rule applies".into(),
+            "all composition helpers off; prefixes are a single consonant, independent vowel or ASCII mark, after which no rewrite rule applies with the helpers off".into(),
         ]
     }
     fn shards(&self, _tier: Tier) -> usize {
@@ -169,7 +175,7 @@ impl Prop for C04 {
     }
     fn minima(&self, _tier: Tier) -> Vec<(&'static str, u64)> {
         vec![("emitted", 1000), ("inert_out_of_table", 1_000_000), ("numpad_off_inert", 100), ("numpad_on_emit", 100),
-             ("inert_assigned_empty_or_missing", 50), ("altgr_plane", 300), ("shift_bit_set", 300), ("suggestions_on_first_candidate", 500)]
+             ("inert_assigned_empty_or_missing", 50), ("altgr_plane", 300), ("shift_bit_set", 300), ("suggestions_on_first_candidate", 500), ("numpad_option_switched_live", 100)]
     }
     fn run_shard(&self, env: &Env, out: &mut Out) {
         let mut t = Tally { events: 0, emitted: 0, inert_assigned_empty: 0, inert_out_of_table: 0, numpad_off_inert: 0, numpad_on_emit: 0, altgr_plane: 0, shift_ignored: 0 };
@@ -186,7 +192,9 @@ impl Prop for C04 {
                     continue;
                 }
                 for &m in &MODS {
-                    for with_pre in [false, true] {
+                    // every prefix for the published codes; idle and the consonant prefix for the other 65 425
+                    let npre = if keydef(code).is_some() { s.pres.len() } else { 1 };
+                    for with_pre in 0..=npre {
                         out.begin_case(|| case_json(s, with_pre, code, m));
                         judge(s, with_pre, code, m, out, &mut t);
                     }
@@ -204,7 +212,7 @@ impl Prop for C04 {
                             continue;
                         }
                         for &m in &MODS {
-                            for with_pre in [false, true] {
+                            for with_pre in 0..=s.pres.len() {
                                 out.begin_case(|| case_json(s, with_pre, k.code, m));
                                 judge(s, with_pre, k.code, m, out, &mut t2);
                             }
@@ -214,7 +222,35 @@ impl Prop for C04 {
             }
             Err(e) => out.violation("setup", format!("setup:{e}"), json!({"setup": "fixed context creation (suggestions on)"}), "contexts can be created".into(), e),
         }
-        out.count("evaluations", t.events + t2.events);
+        // the number-pad option switched on and off under a live context ("only while the option is on")
+        let mut dynamic = 0u64;
+        if env.shard == 0 {
+            for lay in [Lay::Probhat, Lay::Verif] {
+                let root = env.root("c04-dyn");
+                fresh_root(&root);
+                let (Ok(mut sess), Ok(oracle)) = (Sess::new(CfgSpec::new(lay, 0), &root), LayoutOracle::load(lay)) else { continue };
+                for k in keys().iter().filter(|k| k.numpad) {
+                    for round in 0..4 {
+                        let on = round % 2 == 1;
+                        let spec = CfgSpec::new(lay, if on { O_NUMPAD } else { 0 });
+                        if sess.update(spec).is_err() {
+                            break;
+                        }
+                        let got = sess.key(k.code, 0, 0).map(|s| shown(&s, false).unwrap_or_default());
+                        let _ = sess.finish();
+                        dynamic += 1;
+                        let exp = oracle.value(k.code, 0, on).unwrap_or("").to_string();
+                        if got.as_deref().ok() != Some(exp.as_str()) {
+                            out.violation(if on { "key-emits-assignment" } else { "numpad-off-is-inert" }, format!("c04:numpad-option-switched-by-update_engine:{}:{}:on={on}", lay.name(), k.name),
+                                          json!({"cfg": spec.to_json(), "history": "number-pad option switched by update_engine on a live idle context", "key": k.name, "round": round}),
+                                          format!("pre-edit text {exp:?}"), format!("{got:?}"));
+                        }
+                    }
+                }
+            }
+        }
+        out.count("numpad_option_switched_live", dynamic);
+        out.count("evaluations", t.events + t2.events + dynamic);
         out.count("emitted", t.emitted);
         out.count("inert_assigned_empty_or_missing", t.inert_assigned_empty);
         out.count("inert_out_of_table", t.inert_out_of_table);
@@ -230,7 +266,7 @@ impl Prop for C04 {
         let Ok(sets) = setups(env, sugg) else { return };
         let code = case.get("code").and_then(|c| c.as_u64()).unwrap_or(0) as u16;
         let m = case.get("modifier").and_then(|c| c.as_u64()).unwrap_or(0) as u8;
-        let with_pre = case.get("after_one_char").and_then(|c| c.as_bool()).unwrap_or(false);
+        let with_pre = case.get("prefix_index").and_then(|c| c.as_u64()).unwrap_or(0) as usize;
         let mut t = Tally { events: 0, emitted: 0, inert_assigned_empty: 0, inert_out_of_table: 0, numpad_off_inert: 0, numpad_on_emit: 0, altgr_plane: 0, shift_ignored: 0 };
         for s in &sets {
             if s.sess.spec == spec {
